@@ -1,7 +1,7 @@
 (* C06 property theorems.  Size statements are about g_* = the functions regenerated from
    vyper/abi_types.py in this run (GenAbiSizes.v). *)
 From Coq Require Import ZArith List Bool Lia.
-From Verif Require Import C06.Abi C06.AbiLemmas C06.Roundtrip C06.ZeroPad C06.GenAbiSizes C06.SizesTie.
+From Verif Require Import C06.Abi C06.AbiLemmas C06.Roundtrip C06.ZeroPad C06.Venc C06.VencProofs C06.GenAbiSizes C06.SizesTie.
 Import ListNotations.
 Open Scope Z_scope.
 
@@ -67,6 +67,34 @@ Theorem revert_reason_layout : forall b data,
   enc (TTuple [TString b]) (VList [VBytes data]) = word 32 ++ word (zlen data) ++ data ++ zeros (pad32 (zlen data)).
 Proof. exact reason_layout. Qed.
 
+(* ---- structural models of the two encoders (Venc.v): for ALL prior memory m, all destinations dst,
+   and (legacy) all over-copied source junk J ---- *)
+Theorem venc_correct_l : forall J t v m dst, wf_ty t = true -> in_type t v = true ->
+  mreadz (fst (venc_l J t v m dst)) dst (snd (venc_l J t v m dst)) = enc t v.
+Proof. intros J t v m dst Hw Hi. destruct (venc_l_spec J t v Hw Hi m dst) as (Hn & Hr & _). now rewrite Hn. Qed.
+Theorem venc_correct_v : forall t v m dst, wf_ty t = true -> in_type t v = true ->
+  mreadz (fst (venc_v t v m dst)) dst (snd (venc_v t v m dst)) = enc t v.
+Proof. intros t v m dst Hw Hi. destruct (venc_v_spec t v Hw Hi m dst) as (Hn & Hr & _). now rewrite Hn. Qed.
+Print Assumptions venc_correct_l.
+Print Assumptions venc_correct_v.
+
+Theorem venc_len : forall J t v m dst, wf_ty t = true -> in_type t v = true ->
+  snd (venc_l J t v m dst) = zlen (enc t v) /\ snd (venc_v t v m dst) = zlen (enc t v).
+Proof.
+  intros J t v m dst Hw Hi. split.
+  apply (venc_l_spec J t v Hw Hi m dst). apply (venc_v_spec t v Hw Hi m dst).
+Qed.
+
+(* nothing outside [dst, dst + size_bound) changes (size_bound = the compiler's, regenerated) *)
+Theorem venc_confined : forall J t v m dst a, wf_ty t = true -> in_type t v = true ->
+  a < dst \/ dst + g_size_bound t <= a ->
+  fst (venc_l J t v m dst) a = m a /\ fst (venc_v t v m dst) a = m a.
+Proof.
+  intros J t v m dst a Hw Hi Ha. rewrite g_size_bound_eq in Ha. split.
+  apply (venc_l_spec J t v Hw Hi m dst); exact Ha. apply (venc_v_spec t v Hw Hi m dst); exact Ha.
+Qed.
+Print Assumptions venc_confined.
+
 (* non-vacuity: a nested dynamic type with a negative int, an empty array and a 33-byte string *)
 Definition T_ex := TTuple [TInt 8; TDArr (TString 33) 2; TSArr (TDArr (TUInt 256) 2) 2].
 Definition V_ex := VList [VInt (-1); VList [VBytes (repeat 97 33); VBytes []]; VList [VList []; VList [VInt 5]]].
@@ -75,3 +103,9 @@ Example roundtrip_nonvacuous :
   dec T_ex (enc T_ex V_ex) = Some V_ex /\ g_is_dynamic (TSArr (TBytesM 3) 2) = false /\
   dec (TBytes 5) (word 1 ++ [7] ++ zeros 30 ++ [1]) = None.
 Proof. vm_compute. repeat split; reflexivity. Qed.
+
+Example venc_nonvacuous :
+  list_eqb (run_enc (venc_l (fun _ => repeat 238 100) T_ex V_ex) 255 1000) (enc T_ex V_ex) = true /\
+  list_eqb (run_enc (venc_v T_ex V_ex) 255 1000) (enc T_ex V_ex) = true.
+Proof. vm_compute. split; reflexivity. Qed.
+
